@@ -14,6 +14,7 @@ import (
 	"net"
 	"strconv"
 	"strings"
+	"sync"
 	"time"
 
 	"shanhu.io/g/sniproxy"
@@ -457,7 +458,7 @@ func main() {
 	if f.Replay == "" {
 		// the sniffer inside the proxy: the hello arrives before / after the serving context is cancelled, whole or in pieces
 		for _, mode := range []string{"legacy", "siding"} {
-			for _, when := range []string{"cancel-before-hello", "cancel-mid-hello", "no-cancel"} {
+			for _, when := range []string{"cancel-before-hello", "cancel-mid-hello", "no-cancel", "pairs"} {
 				ops = append(ops, fmt.Sprintf("proxy %s mode=%s", when, mode))
 				cases = append(cases, nil)
 			}
@@ -467,13 +468,13 @@ func main() {
 	impl := make([]string, len(ops))
 	for i, op := range ops {
 		if strings.HasPrefix(op, "proxy ") {
-			jr.Risky(op)
+			jr.Risky(op) // stays set: goroutines of the proxy may still crash the process a little later
 			impl[i] = runProxyOp(op, rep)
-			jr.Clear()
 			rep.Case(op, true)
 			rep.Count("proxy-sniff")
 			continue
 		}
+		jr.Risky(op)
 		impl[i] = runOp(op, rep, cases[i])
 		nt := cases[i] == nil || cases[i].wf || len(cases[i].stream) >= 5
 		rep.Case(op, nt)
@@ -485,6 +486,8 @@ func main() {
 			rep.Sample(map[string]string{"op": s, "impl": trunc(impl[i])})
 		}
 	}
+	time.Sleep(200 * time.Millisecond)
+	jr.Clear()
 	drvOps := make([]string, len(ops))
 	for i, op := range ops {
 		drvOps[i] = op
@@ -542,10 +545,102 @@ func main() {
 // payload) is sent before, around or without a cancellation of the serving context; whatever happens
 // to the connection, the process must survive, a connection that is served must carry exactly the
 // bytes the client sent from the hello's first byte on, and the name it is routed by is the hello's.
+// runPairOp: after a peer that is not TLS at all (and one that hangs up inside the record header), several
+// connections with different server names arrive back to back; each application must get exactly the
+// ClientHello and payload of a client that named it, once each.
+func runPairOp(op string, rep *hx.Report, mode string) string {
+	rig, err := snix.NewRig(mode, nil, nil)
+	if err != nil {
+		return "skip " + err.Error()
+	}
+	defer rig.Close()
+	names := []string{"a", "b", "c"}
+	type seen struct {
+		mu   sync.Mutex
+		data [][]byte
+	}
+	got := map[string]*seen{}
+	for _, n := range names {
+		ep, err := rig.Endpoint(n)
+		if err != nil {
+			return "skip " + err.Error()
+		}
+		sn := &seen{}
+		got[n] = sn
+		go func() {
+			for {
+				c, err := ep.Accept()
+				if err != nil {
+					return
+				}
+				go func() {
+					defer c.Close()
+					c.SetDeadline(time.Now().Add(4 * time.Second))
+					bs, _ := io.ReadAll(c)
+					sn.mu.Lock()
+					sn.data = append(sn.data, bs)
+					sn.mu.Unlock()
+				}()
+			}
+		}()
+	}
+	for _, junk := range [][]byte{[]byte("GET / HTTP/1.1\r\nHost: x\r\n\r\n"), {0x16, 0x03}} {
+		if c, err := net.Dial("tcp", rig.Lis.Addr().String()); err == nil {
+			c.Write(junk)
+			time.Sleep(5 * time.Millisecond)
+			c.Close()
+		}
+	}
+	time.Sleep(30 * time.Millisecond)
+	const rounds = 4
+	want := map[string][][]byte{}
+	var conns []net.Conn
+	for r := 0; r < rounds; r++ {
+		for _, n := range names { // back to back, no pause between the accepts
+			c, err := net.Dial("tcp", rig.Lis.Addr().String())
+			if err != nil {
+				continue
+			}
+			conns = append(conns, c)
+			msg := append(append([]byte{}, snix.ClientHello(n+".test")...), []byte(fmt.Sprintf("payload-%s-%d", n, r))...)
+			want[n] = append(want[n], msg)
+			go func() { c.Write(msg); c.(*net.TCPConn).CloseWrite() }()
+		}
+	}
+	time.Sleep(1500 * time.Millisecond)
+	for _, c := range conns {
+		c.Close()
+	}
+	time.Sleep(300 * time.Millisecond)
+	for _, n := range names {
+		sn := got[n]
+		sn.mu.Lock()
+		have := map[string]int{}
+		for _, d := range sn.data {
+			have[string(d)]++
+		}
+		sn.mu.Unlock()
+		for _, w := range want[n] {
+			if have[string(w)] != 1 {
+				rep.Fail("proxy-sniff-misrouted:"+mode, fmt.Sprintf("endpoint %s was named by %d clients; the stream (ClientHello + payload) of one of them reached its application %d times (the applications saw %d streams for %s)", n, len(want[n]), have[string(w)], len(sn.data), n), []string{op})
+				return "failed"
+			}
+		}
+		if len(sn.data) != len(want[n]) {
+			rep.Fail("proxy-sniff-misrouted:"+mode, fmt.Sprintf("endpoint %s received %d connections, %d clients named it", n, len(sn.data), len(want[n])), []string{op})
+			return "failed"
+		}
+	}
+	return "ok"
+}
+
 func runProxyOp(op string, rep *hx.Report) string {
 	ws := strings.Fields(op)
 	when := ws[1]
 	mode := strings.TrimPrefix(ws[2], "mode=")
+	if when == "pairs" {
+		return runPairOp(op, rep, mode)
+	}
 	rig, err := snix.NewRig(mode, nil, nil)
 	if err != nil {
 		return "skip " + err.Error()
